@@ -158,7 +158,11 @@ def run(index, rep, tier):
     rep.check(bool(single), "R08.4", fi.qualname, "single-child test", fn_where(fi), "extract_subtree tests len(children_to_add) == 1 before merging",
               "extract_subtree no longer restricts unifurcation merging to nodes with exactly one surviving child")
 
-    # ---- R08.5 thin clone whitelist
+    thin_clone_rule(index, rep, "R08.5")
+
+
+def thin_clone_rule(index, rep, rid):
+    fi = index.function(NODE + ".extract_subtree")
     created = [n for n in walk_no_nested(fi.node) if isinstance(n, ast.Assign) and isinstance(n.value, ast.Call) and call_name(n.value) == "node_factory"]
     if len(created) != 1:
         raise AnalysisError("R08.5: extract_subtree clone creation site not recognised")
@@ -181,11 +185,11 @@ def run(index, rep, tier):
                 copied["setattr:" + norm(n.args[1])] = norm(n.args[2])
     for attr, val in sorted(copied.items()):
         ok = attr == "<back-reference>" or allowed.get(attr) == val
-        rep.check(ok, "R08.5", fi.qualname, "clone.%s = %s" % (attr, val), fn_where(fi),
+        rep.check(ok, rid, fi.qualname, "clone.%s = %s" % (attr, val), fn_where(fi),
                   "clone receives %s from %s" % (attr, val),
                   "extract_subtree stores `%s` of the source node on the clone (clone.%s): an extracted tree copies structure, lengths, labels and taxa only, and must not share annotations/comments/bipartitions with its source" % (val, attr))
     for attr in allowed:
-        rep.check(attr in copied, "R08.5", fi.qualname, "clone.%s copied" % attr, fn_where(fi), "clone.%s is set from the source" % attr,
+        rep.check(attr in copied, rid, fi.qualname, "clone.%s copied" % attr, fn_where(fi), "clone.%s is set from the source" % attr,
                   "extract_subtree no longer copies %s from the source node to the clone" % attr)
-    rep.check("<back-reference>" in copied, "R08.5", fi.qualname, "back-reference", fn_where(fi), "clone maps back to its source node",
+    rep.check("<back-reference>" in copied, rid, fi.qualname, "back-reference", fn_where(fi), "clone maps back to its source node",
               "extract_subtree no longer records the source node on the clone (extraction_source)")
